@@ -30,7 +30,7 @@ Proof. vm_compute. reflexivity. Qed.
 
 (* ---- the tie to the code: src/polyseed.c as TRANSLATED on this run (Gen/CApi.v) ---- *)
 From Coq Require Import String.
-From PS Require Import Base GFDefs PackDefs StoreDefs MiscDefs StrDefs LangDefs ApiDefs SpecDefs SpecApi GFProofs PackProofs StoreProofs RefineProofs RoundTrip CTieBase CTieLang CTiePhrase CTiePhraseEv CTieSplit CTieApi CTieDecode CTieEncode CTieLocals CTieInject CTieCmp CTieSearch CTieClosed CodeTheorems CodeMachine.
+From PS Require Import Base GFDefs PackDefs StoreDefs MiscDefs StrDefs LangDefs ApiDefs SpecDefs SpecApi GFProofs PackProofs StoreProofs RefineProofs RoundTrip TraceProofs FrameProofs CTieBase CTieLang CTiePhrase CTiePhraseEv CTieSplit CTieApi CTieDecode CTieEncode CTieLocals CTieInject CTieCmp CTieSearch CTieClosed CodeTheorems CodeMachine.
 From PS.Gen Require Import Consts PrivConsts Langs.
 From PS.Gen Require CFuns.
 From PS.Gen Require CApi.
@@ -57,6 +57,17 @@ Theorem C13_code_tie_machine_run :
          Ready sgn fuel st ops -> crun sgn fuel ext st ops = run sgn langs st ops.
 Proof. exact @crun_run. Qed.
 Print Assumptions C13_code_tie_machine_run.
+
+(* the premise Ready is not vacuous: from every state related to an abstract state (every reachable state) every history of calls that take no strings is runnable, given the C preconditions and integer arguments in range *)
+Theorem C13_code_tie_machine_ready :
+  forall (sgn : bool) (fuel : nat) (ext : Z -> list Z -> Z) (OKW : bytes -> Prop),
+         (forall (li : nat) (L : lang) (w : bytes),
+          OKW w -> nth_error langs li = Some L -> ext (Z.of_nat li) (zs w) = enc (lang_search sgn L w)) ->
+         (18 <= fuel)%nat ->
+         forall (ops : list op) (cs : state) (a : astate),
+         R cs a -> Forall simple_ok ops -> Ready sgn fuel cs ops.
+Proof. exact @ready_simple. Qed.
+Print Assumptions C13_code_tie_machine_ready.
 
 (* composed with C13_refinement: any history of calls of the translated code gives, call by call, the outputs of the abstract seed machine and ends in a related state *)
 Theorem C13_code_tie_code_refinement :
